@@ -525,6 +525,24 @@ func checkCoherence(c *core.Ctx, st *skState) {
 			st.mdl.PeakAbs = es.absSum
 		}
 		if st.mdl.PeakAbs > math.MaxFloat64/1024 {
+			// near or beyond the float64 range "within alpha" says little, but a same-signed total is never NaN,
+			// and one that is out of range by more than a factor (1+alpha)/(1-alpha) is the infinity of its sign
+			g := (1 + m.M.RelativeAccuracy()) / (1 - m.M.RelativeAccuracy())
+			tot := new(big.Float).SetPrec(200)
+			for _, it := range st.mdl.Items {
+				if it.W > 0 {
+					p := new(big.Float).SetPrec(200).SetFloat64(it.V)
+					tot.Add(tot, p.Mul(p, new(big.Float).SetFloat64(it.W)))
+				}
+			}
+			lim := new(big.Float).SetPrec(200).SetFloat64(math.MaxFloat64)
+			lim.Mul(lim, new(big.Float).SetFloat64(2*g))
+			c.Count("oracle.sum_checks.beyond_float64_range", 1)
+			if got != got {
+				c.Failf("coherence.sum.nan", "GetSum()=NaN for same-signed data (%d items)", len(items))
+			} else if new(big.Float).Abs(tot).Cmp(lim) > 0 && !math.IsInf(got, tot.Sign()) {
+				c.Failf("coherence.sum.overflow", "GetSum()=%v, the true sum of same-signed data is beyond the float64 range", got)
+			}
 			return
 		}
 		tol := (m.M.RelativeAccuracy()+slack)*math.Abs(es.sum) + m.Min*st.mdl.Zero*2 + float64(len(items)+1)*0x1p-50*es.absSum
